@@ -102,6 +102,7 @@ M  END
 for i, props in enumerate(["", "M  CHG  1   4   1", "M  RAD  1   1   2", "M  ISO  2   1  13   2   3", "M  CHG  2   4   1   5  -1\nM  RAD  1   5   2\nM  ISO  1   4  15",
                            "M  ISO  1   1  14\nM  ISO  1   4  15", "M  CHG  1   4   0", "M  CHG  1   9   1", "G  1 2", "M  CHG  8   1   1   2   1   3   1   4   1   5   1   1   2   2   2   3   2"]):
     pipeline(f"v2000:{i}", V2.replace("%s\n", props + "\n" if props else ""))
+pipeline("v2000:single-atom-no-properties", "\n  x\n\n  1  0  0  0  0  0  0  0  0  0999 V2000\n    0.0000    0.0000    0.0000 He  0  0  0  0  0  0  0  0  0  0  0  0\nM  END\n")
 pipeline("v2000:noend", V2.replace("%s\nM  END\n", ""))
 pipeline("v2000:short", "\n".join(V2.split("\n")[:8]))
 pipeline("v2000:headerstamp", V2.replace("  x\n", "  x V3000\n").replace("%s\n", ""))
